@@ -421,6 +421,7 @@ int Kernel::mutex_lock(const void* m, bool try_only) {
   sim::Task* me = sched.current();
   int my = me ? sched.task_id(me) : -2;
   if (me && yield_on_syscall) sched.yield();
+  if (sync_hook) sync_hook("pre_lock", m, my);
   for (;;) {
     Mutex& mx = mutexes[m];
     if (mx.owner == -1) {
